@@ -1145,7 +1145,16 @@ C17_ZOO = ["schema.int.min(0).max(10)", "schema.str.len(8)", "schema.str.alphabe
            "schema.list(schema.dict({'a': schema.int}) + schema.dict({'b': schema.int, 'c': schema.int})).len(2)",
            "schema.int | schema.str.len(4) | schema.none", "schema.int.min(0).max(99)",
            "make_required(schema.dict({optional('name'): schema.str.len(5), optional('age'): schema.int, optional('tag'): schema.str.len(2)}))",
-           "make_required(schema.dict({optional('name'): schema.str.len(5), optional('age'): schema.int, 'id': schema.int}), {'name', 'age'})"]
+           "make_required(schema.dict({optional('name'): schema.str.len(5), optional('age'): schema.int, 'id': schema.int}), {'name', 'age'})",
+           # schemas built by substitution (untouched / substituted keys, elements and alternatives keep their order)
+           "schema.dict({'id': schema.int, 'name': schema.str.len(5), 'tag': schema.str.len(3), 'age': schema.int.min(0).max(99)}) % {'id': 7}",
+           "schema.dict({'id': schema.int, optional('name'): schema.str.len(5), optional('tag'): schema.str.len(3), 'zip': schema.str.len(4)}) % {'zip': 'abcd', 'id': 1}",
+           "schema.dict({'a': schema.str.len(2), 'b': schema.str.len(3), 'c': schema.str.len(1), ...: ...}) % {'b': 'xyz'}",
+           "schema.dict % {'name': 'n', 'tag': 't', 'age': 3}",
+           "schema.list([schema.int, schema.dict({'p': schema.str.len(1), 'q': schema.str.len(2), 'r': schema.int})]) % [1, {'r': 2}]",
+           "schema.list(schema.dict({'k': schema.str.len(2), 'v': schema.str.len(3), 'w': schema.int})) % [{'k': 'ab'}, {'w': 1}]",
+           "schema.any(schema.dict({'a': schema.str.len(2), 'b': schema.str.len(2), 'c': schema.int}), schema.dict({'a': schema.int, 'd': schema.str.len(1), 'e': schema.str.len(2)})) % {'a': ...}",
+           "schema.dict({'u': schema.dict({'p': schema.str.len(1), 'q': schema.str.len(2), 'r': schema.str.len(3)})}) % {'u': {'q': 'zz'}}"]
 
 
 def oracle_C17(inp, meta=None):
